@@ -405,6 +405,37 @@ def _key_length_guard(model: Model, rep: Report) -> None:
     performed that check on the same handler."""
     from ..cfg import build_cfg
 
+    r8 = rep.rule("C13-R8", "AMP", "counting loops make progress: in every `while i < n` style loop whose test compares a local counter, each way round the loop (including `continue` and exception handlers that carry on) re-assigns the counter", 2)
+    from ..cfg import build_cfg as _bcfg
+
+    for q8, f8 in sorted(model.funcs.items()):
+        if f8.parent is not None or isinstance(f8.node, ast.Lambda) or f8.module.name.split(".")[-1] in ("glyphlist", "fontmetrics"):
+            continue
+        for w in walk_no_nested(f8.node):
+            if not (isinstance(w, ast.While) and isinstance(w.test, ast.Compare) and len(w.test.ops) == 1 and isinstance(w.test.ops[0], (ast.Lt, ast.LtE, ast.Gt, ast.GtE))):
+                continue
+            cands8 = [x for x in (w.test.left, w.test.comparators[0]) if isinstance(x, ast.Name)]
+            # the counter: a compared name that the body assigns at all
+            ctr = [x.id for x in cands8 if any(isinstance(n, ast.Name) and isinstance(n.ctx, ast.Store) and n.id == x.id for st in w.body for n in ast.walk(st))]
+            if len(ctr) != 1:
+                continue
+            c8 = ctr[0]
+            frag = ast.FunctionDef(name="_body", args=ast.arguments(posonlyargs=[], args=[], kwonlyargs=[], kw_defaults=[], defaults=[]), body=w.body, decorator_list=[], lineno=w.lineno, col_offset=0)
+            g8 = _bcfg(frag, exc_edges=True)
+
+            def writes(nd, c8=c8) -> bool:
+                a = nd.ast
+                if a is None:
+                    return False
+                if nd.kind in ("test", "for", "with", "handler"):
+                    tgt = getattr(a, "target", None) if nd.kind == "for" else None
+                    return tgt is not None and any(isinstance(n, ast.Name) and n.id == c8 for n in ast.walk(tgt))
+                return any(isinstance(n, ast.Name) and isinstance(n.ctx, ast.Store) and n.id == c8 for n in ast.walk(a))
+
+            wit8 = g8.all_path_pass(g8.entry, writes)
+            # a path that leaves the loop (break / return / raise) needs no progress
+            leaves8 = wit8 is not None and any(g8.nodes[x].kind == "raise" or isinstance(g8.nodes[x].ast, (ast.Break, ast.Return, ast.Raise)) for x in wit8)
+            r8.check(wit8 is None or leaves8, site(f8, w), f8.qualname, f"`while {unparse(w.test)}`: every way round re-assigns `{c8}`", why=f"a path through the body returns to the test without touching `{c8}` (e.g. a `continue` in an exception handler): with the same state the same path is taken again - the loop never ends")
     r7 = rep.rule("C13-R7", "GUARD", "choplist(n, seq) yields full groups of n only (a short tail is dropped): every `for a, b in choplist(2, ...)` / `for a, b, c in choplist(3, ...)` over document data relies on it to unpack", 1)
     cl = model.func("pdfminer.utils.choplist")
     ys = [n for n in walk_no_nested(cl.node) if isinstance(n, (ast.Yield, ast.YieldFrom))]
